@@ -1,6 +1,7 @@
 import Req.Driver.Proto
 import Req.Pool.Lockset
 import Req.Pool.Monitor
+import Req.Pool.H1PoolLane
 /-! Driver lanes of C09. -/
 namespace Req.Driver.L.C09
 open Req.Proto
@@ -60,8 +61,43 @@ def laneMon : List String → String
     | _, _, _, _ => "bad-op"
   | _ => "bad-op"
 
+/-! ### `c09pool <MaxIdleConns> <MaxIdleConnsPerHost> <MaxConnsPerHost> <DisableKeepAlives 0|1> <nKeys> <nWants> <nConns> <ops>`
+ops comma-joined: `N.w.k` getConn creates want · `QI.w` queueForIdleConn · `QD.w` queueForDial ·
+`DO.w.c` dial of w succeeds with new connection c · `DX.w` dial fails · `RV.w` getConn receives ·
+`CA.w` wantConn.cancel · `FP.w` request done, readLoop tryPutIdleConn · `FC.w` connection of w dies ·
+`SC.c` peer closes idle c · `RI.c` removeIdleConn · `IT.c` closeConnIfStillIdle · `CI` CloseIdleConnections.
+Answer: per op `<return>/<state dump>` joined with `;`. -/
+
+def parseMOp (s : String) : Option Req.Pool.H1PoolLane.MOp :=
+  match s.splitOn "." with
+  | ["N", w, k] => do pure (.newWant (← w.toNat?) (← k.toNat?))
+  | ["QI", w] => do pure (.queueIdle (← w.toNat?))
+  | ["QD", w] => do pure (.queueDial (← w.toNat?))
+  | ["DO", w, c] => do pure (.dialOk (← w.toNat?) (← c.toNat?))
+  | ["DX", w] => do pure (.dialFail (← w.toNat?))
+  | ["RV", w] => do pure (.recv (← w.toNat?))
+  | ["CA", w] => do pure (.cancel (← w.toNat?))
+  | ["FP", w] => do pure (.finishPut (← w.toNat?))
+  | ["FC", w] => do pure (.finishClose (← w.toNat?))
+  | ["SC", c] => do pure (.serverClose (← c.toNat?))
+  | ["RI", c] => do pure (.removeIdle (← c.toNat?))
+  | ["IT", c] => do pure (.idleTimeout (← c.toNat?))
+  | ["CI"] => some .closeIdle
+  | _ => none
+
+def lanePool : List String → String
+  | [mi, mh, mc, dk, nk, nw, nc, ops] =>
+    match mi.toNat?, mh.toInt?, mc.toInt?, nk.toNat?, nw.toNat?, nc.toNat?,
+          (if ops == "-" then some [] else (ops.splitOn ",").mapM parseMOp) with
+    | some mi, some mh, some mc, some nk, some nw, some nc, some os =>
+      let cfg : Req.Pool.H1Pool.Cfg := ⟨mi, mh, mc, dk == "1"⟩
+      ";".intercalate (Req.Pool.H1PoolLane.runLane cfg nk nw nc {} os)
+    | _, _, _, _, _, _, _ => "bad-op"
+  | _ => "bad-op"
+
 def lanes : List (String × (List String → String)) := [
   ("c09lockset", laneLockset),
+  ("c09pool", lanePool),
   ("c09mon", laneMon)
 ]
 
